@@ -37,6 +37,12 @@ fn main() {
             println!("iso: {:?}", iso(&a, &b, IsoMode::RoundTrip).map(|m| m.renumbered()));
             println!("out: {}", hex(&out));
         }
+        "famvalid" => {
+            let ms = match av[2].as_str() { "ctrl" => wgen::families::ctrl_family(wgen::Tier::Quick), "idshift" => wgen::families::idshift_family(), "leb" => wgen::families::leb_family(wgen::Tier::Quick), _ => vec![] };
+            let mut bad = 0;
+            for m in &ms { if let Err(e) = validate214(&m.wasm, FeatureSet::DEFAULT) { bad += 1; if bad < 5 { println!("{} : {}", m.coords, e); } } }
+            println!("{} members, {} invalid", ms.len(), bad);
+        }
         "reachvalid" => {
             let ms = wgen::families::reach_family(wgen::Tier::Quick);
             let mut bad = 0;
